@@ -3,8 +3,8 @@ from vp.kani import Ob
 META = {
     "functions_encoded": ["rlib_rational::Rational::{new,new_int,floor,ceil,norm}", "Add/Sub/Mul/Div (by value, by reference) and assigning forms, Neg",
                           "Ord::cmp, PartialOrd::partial_cmp, derived Eq/PartialEq/Hash", "rlib_gcd::gcd"],
-    "bounds": {"quick": "components |a|,|b|,|c|,|d| <= 7 (i8, i64) and <= 10 (i16), denominators of either sign",
-               "thorough": "adds i32 (<=10) and i128 (<=5)"},
+    "bounds": {"quick": "components |a|,|b|,|c|,|d| <= 7 at i8 and i16 (all operators), i64 (constructor, floor/ceil); denominators of either sign",
+               "thorough": "adds all operators at i64 (<=7), i16/i32 (<=10), i128 (<=5)"},
     "outside_claim": ["components up to 2^30 over i64 (Euclid with 64-bit symbolic division)", "overflow behaviour above the threshold", "Display/Debug/Show"],
     "stubs_and_assumes": ["exact value compared by cross-multiplication in a wider integer type", "lowest terms decided by the real gcd (itself decided in C11 on this range)"],
     "assumptions": ["Kani/CBMC translation of MIR is faithful"],
@@ -13,15 +13,25 @@ META = {
 
 def obligations(tier, seed):
     obs = []
-    mods = [("r_i8", "i8, |.|<=7"), ("r_i16", "i16, |.|<=10"), ("r_i64", "i64, |.|<=7")]
-    if tier == "thorough":
-        mods += [("r_i32", "i32, |.|<=10"), ("r_i128", "i128, |.|<=5")]
-    for m, b in mods:
-        for h, c, d in (("new_canonical", 2, "new: exact value, positive denominator, lowest terms"),
-                        ("add_sub", 2, "+,-: exact, canonical; by-ref and assigning forms identical"),
-                        ("mul_div_neg", 1, "*,/,neg: exact, canonical; all operator forms"),
-                        ("order_eq_hash", 2, "cmp = numeric order; == iff numerically equal; equal values hash identically"),
-                        ("floor_ceil", 2, "floor/ceil: greatest integer <= x / least integer >= x")):
-            obs.append(Ob("num", "rational::%s::%s" % (m, h), covers=c, desc=d, bounds=b, timeout=1500 if tier == "quick" else 3000))
+    HS = (("new_canonical", 2, "new: exact value, positive denominator, lowest terms"),
+          ("add_sub", 2, "+,-: exact, canonical; by-ref and assigning forms identical"),
+          ("mul_div_neg", 1, "*,/,neg: exact, canonical; all operator forms"),
+          ("order_eq_hash", 2, "cmp = numeric order; == iff numerically equal; equal values hash identically"),
+          ("floor_ceil", 2, "floor/ceil: greatest integer <= x / least integer >= x"))
+    def add(m, b, only=None, timeout=800):
+        for h, c, d in HS:
+            if only and h not in only:
+                continue
+            obs.append(Ob("num", "rational::%s::%s" % (m, h), covers=c, desc=d, bounds=b, timeout=timeout))
+    add("r_i8", "i8, |.|<=7")
+    add("r_i16", "i16, |.|<=7")
+    if tier == "quick":
+        # 64-bit Euclid steps are the cost driver (add_sub at i64: ~20 min): the arithmetic harnesses at i64 are thorough-only
+        add("r_i64", "i64, |.|<=7", only=("new_canonical", "floor_ceil"))
+    else:
+        add("r_i16b", "i16, |.|<=10", timeout=4000)
+        add("r_i32", "i32, |.|<=10", timeout=4000)
+        add("r_i64", "i64, |.|<=7", timeout=6000)
+        add("r_i128", "i128, |.|<=5", timeout=6000)
     obs.append(Ob("num", "rational::c07_twin_false", expect="fail", desc="deliberately false twin"))
     return obs
